@@ -545,7 +545,9 @@ func RunW3Compile(plan, sched *simrt.Source, trace bool) *RunOut {
 		if len(all) > 0 {
 			break
 		}
-		if st.mixOK[0] != st.mixOK[1] {
+		// (the verdicts of the two compile steps must agree; whether a *removal* - of nothing, say - is answered with an
+		// error is not a compile verdict and not C10's business: there only the installed sets are compared)
+		if st.mixOK[0] != st.mixOK[1] && op.MixKind != 2 {
 			add("entry-points-disagree", "mixed-history-"+mk, "", fmt.Sprintf("%s: in a mixed history the builder's %s returned ok=%v and the pool's ok=%v\n%s", where, mk, st.mixOK[0], st.mixOK[1], op.Text))
 		} else if a, b := st.mixObs[0].key(), st.mixObs[1].key(); a != b {
 			add("entry-points-install-different-sets", "mixed-history-"+mk, "", fmt.Sprintf("%s: after the same history of full / incremental / removal operations the builder holds [%s] and the pool [%s] (last operation: %s)\n%s", where, a, b, mk, op.Text))
